@@ -49,8 +49,29 @@ impl LlBuilt {
 }
 
 pub fn ll_grammar(rng: &mut Rng, i: usize) -> G {
+    let mut g = ll_grammar_core(rng, i);
+    // half of the shaped grammars get consumed tokens in front of (and behind) the k-token decision, so that the
+    // decision is taken with a token buffer that has already been consumed from (not only at the very start)
+    if matches!(i % 8, 0 | 1 | 2 | 5) && rng.chance(1, 2) {
+        if let Some(p) = g.prods.iter_mut().find(|(l, _)| *l == g.start) {
+            p.1.insert(0, Sy::T(12));
+            if rng.chance(1, 2) { p.1.insert(0, Sy::T(13)); }
+            if rng.chance(1, 2) { p.1.push(Sy::T(14)); }
+        }
+    }
+    g
+}
+
+fn ll_grammar_core(rng: &mut Rng, i: usize) -> G {
     let t = |x: u16| Sy::T(x);
     match i % 8 {
+        3 if rng.chance(1, 2) => {
+            // a list with separator and optional trailing separator: the LL(2) decision recurs after every item
+            // NA: NB NC; NB: a | b; NC: c NB NC | c | (empty)
+            G { names: (0..3).map(nt_name).collect(), start: 0, prods: vec![
+                (0, vec![Sy::N(1), Sy::N(2)]), (1, vec![t(5)]), (1, vec![t(6)]),
+                (2, vec![t(7), Sy::N(1), Sy::N(2)]), (2, vec![t(7)]), (2, vec![])] }
+        }
         0 => {
             // T: | A | B; A: c b; B: c a   (the unite-k witness shape), with a random depth
             let k = rng.range(1, 3);
